@@ -66,6 +66,8 @@ let parse_op (t : string list) : pop =
   | ["bwrite"; b] -> Op (OBWrite (nat_of_tok b))
   | ["breset"; b] -> Op (OBReset (nat_of_tok b))
   | ["brep"; b] -> Op (OBReplay (nat_of_tok b))
+  | ["brepto"; b1; b2] -> if b1 = b2 then Skip (* a batch is never replayed into itself *)
+                          else Op (OBReplayTo (nat_of_tok b1, nat_of_tok b2))
   | ["flush"; d] -> Op (OFlush (nat_of_tok d))
   | ["drop"; d] -> Op (ODrop (nat_of_tok d))
   | ["nfp"; d] -> Op (ONfp (nat_of_tok d))
